@@ -208,6 +208,24 @@ fn eval(name: &str, a: &[Value]) -> Value {
             }
         }
         "execute_all" => crate::exec::execute_all(&a[0]),
+        // a real shell that kills itself with SIGKILL, run through the real SubprocessRunner
+        "signal_status" => {
+            use scrut::executors::runner::Runner;
+            let runner = scrut::executors::subprocess_runner::SubprocessRunner::new(std::path::PathBuf::from("/bin/bash"));
+            let tmp = std::env::temp_dir().join(format!("verif-sig-{}", std::process::id()));
+            let _ = std::fs::create_dir_all(&tmp);
+            let context = scrut::executors::context::ContextBuilder::default()
+                .work_directory(tmp.clone()).temp_directory(tmp.clone()).file(std::path::PathBuf::from("f.md"))
+                .config(scrut::config::DocumentConfig::empty()).build().unwrap();
+            let testcase = scrut::testcase::TestCase { title: "t".into(), shell_expression: "kill -KILL $$".into(), expectations: vec![],
+                exit_code: None, line_number: 1, config: scrut::config::TestCaseConfig::empty() };
+            let out = runner.run("sig", &testcase, &context);
+            let _ = std::fs::remove_dir_all(&tmp);
+            match out {
+                Ok(o) => json!({"status": o.exit_code.to_string(), "code_produced": matches!(o.exit_code, scrut::output::ExitStatus::Code(_))}),
+                Err(e) => json!({"error": e.to_string(), "code_produced": false}),
+            }
+        }
         "max_backtick_size" => {
             json!(scrut::generators::markdown::verif_hooks::max_backtick_size(&str_arg(&a[0])))
         }
